@@ -139,8 +139,10 @@ Section Print1.
 
   Lemma fext_refl bs p F : fext R sts bs p F F.
   Proof. repeat split; try apply incl_refl. exists []; rewrite app_nil_r; split; [reflexivity | exact I]. Qed.
+  Lemma Forall2_fext_refl X p bs : Forall2 (fext R sts X p) bs bs.
+  Proof. induction bs; constructor; [apply fext_refl | assumption]. Qed.
   Lemma sext_refl p bs : sext R sts p bs bs.
-  Proof. unfold sext; induction bs; constructor; [apply fext_refl | assumption]. Qed.
+  Proof. apply Forall2_fext_refl. Qed.
 
   Lemma fext_grow bs bs' p F F' : grow bs bs' -> fext R sts bs p F F' -> fext R sts bs' p F F'.
   Proof.
@@ -158,12 +160,16 @@ Section Print1.
     unfold names in B6. rewrite A5, map_app, A1 in B6. exact B6.
   Qed.
 
+  Lemma Forall2_fext_trans X p a b : forall c,
+    Forall2 (fext R sts X p) a b -> Forall2 (fext R sts X p) b c -> Forall2 (fext R sts X p) a c.
+  Proof.
+    intros c H1; revert c; induction H1 as [|F1 F2 a b HF HR IH]; intros c H2; inversion H2; subst; constructor.
+    - eapply fext_trans; eauto.
+    - apply IH; assumption.
+  Qed.
   Lemma sext_trans p a b c : sext R sts p a b -> sext R sts p b c -> sext R sts p a c.
   Proof.
     intros H1 H2. pose proof (sext_grow _ _ _ H2) as Hg. unfold sext in *.
-    apply (Forall2_fext_grow _ _ _ _ _ Hg) in H1.
-    revert c H2; induction H1 as [|F1 F2 a b HF HR IH]; intros c H2; inversion H2; subst; constructor.
-    - eapply fext_trans; eauto.
-    - apply IH; assumption.
+    apply (Forall2_fext_grow _ _ _ _ _ Hg) in H1. eapply Forall2_fext_trans; eauto.
   Qed.
 End Print1.
